@@ -381,6 +381,12 @@ class Ctx:
                     "axioms outside the allow-list: " + ", ".join(bad) if bad else "")
         self.cov["axioms_reported"] = axioms
         self.cov["theorems"] = names
+        if self.tier == "thorough" and os.environ.get("VERIF_NO_COQCHK") != "1":
+            # independent re-check of the compiled property file and everything it depends on
+            rc, chk = sh(["timeout", "1500", "coqchk", "-silent", "-o", "-Q", "theories", "VTL", f"VTL.Props.{props_file}"], cwd=COQ, timeout=1600)
+            tail = chk.strip().splitlines()[-25:]
+            self.cov["coqchk"] = {"rc": rc, "tail": tail}
+            self.oblige(f"coqchk -o VTL.Props.{props_file} (independent checker)", rc == 0, "\n".join(tail[-5:]))
         return not bad
 
     # ---- violations / findings
